@@ -176,7 +176,12 @@ class QuadricTensor(ProjectiveTensor, ABC):
                 [np.delete(np.delete(ind, i, axis=1), i, axis=2) for i in combinations(range(n), n - 2)], axis=1
             )
             minors = det(self.array[..., ind[0], ind[1]])
-            p = csqrt(-minors)  # type: ignore[arg-type]
+            # the principal minors are -w_kl**2 for the entries w_kl of the skew symmetric matrix; the signs of the
+            # entries relative to the entry of largest modulus follow from the mixed minors -w_ij * w_kl
+            k = np.argmax(np.abs(minors), axis=-1)
+            mixed = det(self.array[(*(x[..., None, None, None] for x in indices), ind[0][k][..., None, :, :], ind[1])])
+            beta = csqrt(-np.take_along_axis(minors, k[..., None], axis=-1))  # type: ignore[arg-type]
+            p = -mixed / np.where(beta != 0, beta, -1)
 
         # use the skew symmetric matrix m to get a matrix of rank 1 defining the same quadric
         m = hat_matrix(p)
